@@ -47,17 +47,21 @@ def run(chk, judge, weights):
                               cases=max(1, (q if quick else th) // nsh), nshards=nsh, nsamples=0))
     # synthesised bases: small fonts where half of every file is Silf/Glat, all container variants
     nsynth = 0
-    for kind, cnt in (('c06', 24 if quick else 300), ('hostile', 12 if quick else 150), ('just', 12 if quick else 150)):
+    for kind, cnt in (('c06', 24 if quick else 300), ('hostile', 12 if quick else 150), ('just', 12 if quick else 150), ('feat', 24 if quick else 300)):
         lst, paths = synthwork.make_fonts(kind, chk.seed, cnt)
         nsynth += len(paths)
         for p in paths:
             for mut, (q, th) in weights.items():
-                if mut in ('fuzz', 'none'):
+                if mut == 'fuzz':
                     continue
                 n = (q if quick else th) // 12
                 if n > 0:
                     parts.append(dict(harness='h_face', flavour='asan', args=['--font', p, '--mut', mut, '--scratch', scratch, '--judge', judge], cases=n, nshards=1, nsamples=0))
-    chk.run_parts(parts, workers=8 if quick else 2)
+    # multi-shard parts (nshards processes each) a few at a time, single-process parts sixteen at a time
+    wide = [p_ for p_ in parts if p_['nshards'] > 1]
+    narrow = [p_ for p_ in parts if p_['nshards'] <= 1]
+    chk.run_parts(wide, workers=8 if quick else 2)
+    chk.run_parts(narrow, workers=16)
     t = chk.tot
     cov['evaluations'] = int(t.get('loads', 0))
     cov['distinct_nontrivial'] = int(t.get('mutated_font_loaded', 0) + t.get('load_failed', 0))
